@@ -184,7 +184,7 @@ def check_string(cx, http, DS, s):
         cc2.max_age = len(s)
         d2 = cc2.to_header()
         r2 = http.parse_cache_control_header(d2, None, DS.ResponseCacheControl)
-        cx.eq("cache-control", s, d2, (r2.private, r2.no_cache, r2.max_age), (cc2.private, cc2.no_cache, cc2.max_age), "C06/cache-control-typed-properties")
+        cx.eq("cache-control", s, d2, (r2.private, r2.no_cache, r2.max_age), (s, True if len(s) % 2 else s, len(s)), "C06/cache-control-typed-properties")
         a = DS.Authorization("digest", {"username": s, "realm": "r"})
         d = a.to_header()
         cx.eq("authorization", s, d, DS.Authorization.from_header(d), a, "C06/authorization-params")
